@@ -28,7 +28,7 @@ var CTPool = []string{"", "", "text/plain", "application/octet-stream", "image/p
 
 func GenPayload() *rapid.Generator[Payload] {
 	return rapid.Custom(func(t *rapid.T) Payload {
-		k := rapid.SampledFrom([]string{"empty", "one", "bin", "text", "text", "text", "bin"}).Draw(t, "pk")
+		k := rapid.SampledFrom([]string{"empty", "one", "bin", "text", "text", "text", "bin", "framing"}).Draw(t, "pk")
 		return Payload{K: k, N: rapid.IntRange(0, 40).Draw(t, "pn"), Seed: rapid.IntRange(0, 255).Draw(t, "seed")}
 	})
 }
@@ -57,6 +57,11 @@ func GenUpload(buckets, names []string, big bool) *rapid.Generator[Op] {
 		}
 		if op.Proto != "media" && rapid.IntRange(0, 2).Draw(t, "hasmeta") == 0 {
 			op.Meta = map[string]string{rapid.SampledFrom([]string{"k1", "k2"}).Draw(t, "mk"): rapid.SampledFrom([]string{"v", "", "ü"}).Draw(t, "mv")}
+		} else if op.Proto != "media" {
+			op.EmptyMeta = rapid.IntRange(0, 3).Draw(t, "emptymeta") == 0
+		}
+		if op.Proto == "resumable" && op.MD5 == "wrong" {
+			op.RetryFinal = rapid.Bool().Draw(t, "retryfinal")
 		}
 		return op
 	})
@@ -77,7 +82,11 @@ func GenConds(pct int) *rapid.Generator[Conds] {
 			if rapid.IntRange(0, 2).Draw(t, l+"set") > 0 {
 				return Cond{}
 			}
-			return Cond{K: rapid.SampledFrom(kinds).Draw(t, l)}
+			c := Cond{K: rapid.SampledFrom(kinds).Draw(t, l)}
+			if c.K == "bad" {
+				c.N = int64(rapid.IntRange(0, len(BadNumbers)-1).Draw(t, l+"bad"))
+			}
+			return c
 		}
 		c.GM = pick([]string{"cur", "cur", "other", "zero", "prev", "bad"}, "gm")
 		c.GNM = pick([]string{"cur", "other", "other", "prev", "bad"}, "gnm")
@@ -107,10 +116,19 @@ func GenPatch(buckets, names []string, condPct int, ro bool) *rapid.Generator[Op
 			}
 		}
 		if ro && rapid.IntRange(0, 3).Draw(t, "ro") == 0 {
-			op.RO = map[string]string{rapid.SampledFrom([]string{"generation", "metageneration", "size", "md5Hash"}).Draw(t, "rok"): rapid.SampledFrom([]string{"5", "77", "@cond", "@cond", "1", "2"}).Draw(t, "rov")}
+			switch k := rapid.SampledFrom([]string{"generation", "metageneration", "size", "md5Hash", "name", "bucket"}).Draw(t, "rok"); k {
+			case "name": // the resource of ANOTHER object sent to this object's URL: only the addressed object may change
+				op.RO = map[string]string{k: rapid.SampledFrom(names).Draw(t, "roname")}
+			case "bucket":
+				op.RO = map[string]string{k: rapid.SampledFrom(BucketPool).Draw(t, "robucket")}
+			default:
+				op.RO = map[string]string{k: rapid.SampledFrom([]string{"5", "77", "@cond", "@cond", "1", "2"}).Draw(t, "rov")}
+			}
 		}
 		if rapid.IntRange(0, 19).Draw(t, "badbody") == 0 {
-			op.BadBody = rapid.SampledFrom([]string{"{", "[1]", "\"x\"", "{\"metadata\": 5}"}).Draw(t, "bb")
+			op.BadBody = rapid.SampledFrom([]string{"{", "[1]", "\"x\"", "{\"metadata\": 5}",
+				// a body that is valid up to a field of the wrong type: nothing of it may stick
+				"{\"metadata\":{\"leaked\":\"yes\"},\"contentType\":5}", "{\"contentType\":\"leaked/type\",\"metadata\":{\"k1\":7}}", "{\"cacheControl\":\"leaked\",\"contentLanguage\":[]}"}).Draw(t, "bb")
 		}
 		return op
 	})
